@@ -14,6 +14,9 @@ import RbModel.Lemmas.GsubAlternateSpec
 import RbModel.Lemmas.GsubMultiSpec
 import RbModel.Lemmas.GsubMultiDel
 import RbModel.Lemmas.GsubMultiMixed
+import RbModel.Lemmas.GsubLigFwd
+import RbModel.Lemmas.GsubLigFlags
+import RbModel.Lemmas.GsubLigMixed
 
 namespace RbModel.Buf
 
@@ -673,5 +676,357 @@ example : (match applySubtable (recurseAt MAX_NESTING_LEVEL) true { exMultiCtx w
 example : (match applyString { exMultiCtx with buf := { exMultiCtx.buf with maxLen := 5 } } exMultiLookup 4 with
     | .ok c' => (c'.buf.successful, (c'.buf.info.take c'.buf.len).map (·.gid)) == (false, [1, 2, 1, 3])
     | .error _ => false) = true := by decide
+
+end RbModel.Gsub
+
+/-! ## Part 5: ligature substitution (GSUB type 4) — several glyphs become one, clusters merge
+
+Same refinement for lookups all of whose subtables are ligature subtables, on the specification's documented domain for
+ligatures: nothing is skipped inside a match, so the components are consecutive glyphs.  `Ligature::apply` runs
+`match_input` (skipping iterator, ligature-id compatibility tests), then `ligate_input`: `merge_clusters` over the span,
+ligature-id allocation and lig-props / glyph-class bookkeeping on the first component, `replace_glyph`, and a loop that
+skips the other components and re-numbers marks in between (there are none here).  The specification
+(`Spec.Subst.applySubtableAt … (.ligature …)`) matches the components at the next visible positions, merges the clusters of
+the span (`Spec.Subst.mergeClusters`), turns the first component into the ligature glyph and removes the others.
+Lemmas: `Lemmas/GsubLig*.lean`; the proof is a simulation over the pair (out-part, in-part) of Part 4, the
+specification's string being the projection of `out ++ in` and its position `out_len`.
+
+Hypotheses, and the guard of the code (or the silence of the specification) each one stands for:
+* `NoSkipFlags l.props` — the lookup flags exclude nothing (no IGNORE_BASE_GLYPHS / IGNORE_LIGATURES / IGNORE_MARKS, no mark
+  filtering set, no mark attachment type): the Spec's domain.  `Plain x` — `x` is not default-ignorable (else the
+  iterator may skip it: HarfBuzz-specific) and carries no ligature id / component (what `substitute_start` establishes;
+  `match_input` refuses to ligate across components of different earlier ligatures, which the OpenType text does not know).
+* `c.perSyllable = false` — `match_input` stops at syllable borders for per-syllable features (Indic shapers only).
+* `LigsShort` — a ligature has at most 63 components behind the first glyph: `match_input` gives up on longer inputs
+  (`MAX_CONTEXT_LENGTH = 64`); the specification has no such limit (replayed on the crate: a ligature of 1 + 64 glyphs is not
+  formed, one of 1 + 63 glyphs is).
+* `c.buf.level ≠ 2` — cluster levels 0 / 1 (level 2 does not merge; it flags the span unsafe-to-break instead).
+* `NonDecr ∨ NonIncr` — cluster values are monotone along the buffer (what HarfBuzz maintains at levels 0 / 1).
+  `merge_clusters` extends the merged span over the adjacent RUNS of the first / last component's cluster, the
+  specification relabels every glyph carrying one of the span's cluster values; the two agree when equal cluster values
+  are adjacent (counter-example without it below).
+* `FeatMask x` — the mask holds feature bits only, none of the three `glyph_flag` bits: `set_cluster` clears the glyph
+  flags of a glyph whose cluster it changes, the specification leaves masks alone (counter-example below).
+  `c.buf.flags &&& PRODUCE_UNSAFE_TO_CONCAT = 0` — otherwise every FAILED match sets the unsafe-to-concat flag on the
+  inspected glyphs (a mask change the specification does not describe).
+* `c.buf.len ≤ c.buf.maxLen` — `replace_glyph` / `next_glyph` go through `make_room_for`; the string only shrinks.
+* `x.gid < 65536`, `hlen`, `hout`, `hsu` as in Parts 2–4.  No `hsync` is needed: with flag-free lookups `check_glyph_property`
+  accepts every glyph whatever its cached class. -/
+namespace RbModel.Gsub
+open RbModel RbModel.Buf RbModel.Spec.Subst
+
+/-- **C06, ligature, step lemma 1: `match_input` without skippable glyphs is the specification's `matchSeq` on consecutive
+    positions.**  On any in/out buffer state whose unconsumed input is plain, under a flag-free lookup: `match_input` for
+    the components `comps` does not panic; it succeeds exactly when `matchSeq` finds the components at the visible
+    positions behind `out_len` of the projected string `toG (out ++ in)` with the feature on; the matched positions are
+    consecutive and are the same offsets from the current glyph on both sides, `match_end` is just behind the last. -/
+theorem C06_ligature_match_refines_spec (c : Ctx) (comps : List Nat) (x : Info) (R : List Info)
+    (hinv : Inv c.buf) (hin : inP c.buf = x :: R) (hpl : ∀ y ∈ x :: R, Plain y) (hgid : ∀ y ∈ R, y.gid < 65536)
+    (hp : NoSkipFlags c.lookupProps) (hps : c.perSyllable = false) (hshort : comps.length + 1 ≤ MAX_CONTEXT_LENGTH) :
+    ∃ r, matchInput c comps.length (fun g i => g == comps.getD i 0) [0, 0, 0, 0] = .ok r ∧
+      match matchSeq ((outP c.buf ++ inP c.buf).map toG)
+              (visibleFrom c.font c.lookupProps ((outP c.buf ++ inP c.buf).map toG) (c.buf.outLen + 1))
+              (comps.map fun v => fun g => g == v) (some c.lookupMask) with
+      | none => r.ok = false
+      | some ins => r.ok = true ∧ r.endPos = c.buf.idx + comps.length + 1 ∧ ins.length = comps.length ∧
+          ∀ j, j < comps.length → ins[j]? = some (c.buf.outLen + 1 + j) ∧ r.positions[1 + j]? = some (c.buf.idx + 1 + j) := by
+  obtain ⟨r, hrun, hok, hrest⟩ := matchInput_plain c comps x R hinv.len_le hin hpl hp hps hshort
+  refine ⟨r, hrun, ?_⟩
+  have hol := outP_length c.buf hinv
+  have hdrop : ((outP c.buf ++ inP c.buf).map toG).drop (c.buf.outLen + 1) = R.map projG := by
+    rw [hin, List.map_append, List.map_cons]
+    exact drop_succ_append _ _ _ _ (by simp [hol])
+  rw [visibleFrom_noSkip c.font c.lookupProps _ _ hp, matchSeq_consecutive, hdrop, ← ligMatch_proj c.lookupMask comps R hgid, ← hok]
+  cases hr : r.ok with
+  | false => simp
+  | true =>
+    obtain ⟨hend, hpos⟩ := hrest hr
+    simp only [if_true]
+    refine ⟨trivial, hend, by simp, ?_⟩
+    intro j hj
+    refine ⟨by rw [List.getElem?_range' hj]; simp, ?_⟩
+    rw [hpos (1 + j) (by omega)]
+    congr 1; omega
+
+/-- the hypotheses of the step theorems about one state of the forward scan: current glyph `x`, rest of the input `R` -/
+structure LigStepHyp (c : Ctx) (x : Info) (R : List Info) : Prop where
+  inv : Inv c.buf
+  inp : inP c.buf = x :: R
+  plain : ∀ y ∈ x :: R, Plain y ∧ y.gid < 65536
+  feat : ∀ y ∈ outP c.buf ++ inP c.buf, FeatMask y
+  mono : NonDecr (outP c.buf ++ inP c.buf) ∨ NonIncr (outP c.buf ++ inP c.buf)
+  noskip : NoSkipFlags c.lookupProps
+  nosyl : c.perSyllable = false
+  level : c.buf.level ≠ 2
+  noconcat : c.buf.flags &&& Gen.Buf.produceUnsafeToConcat = 0
+  budget : c.buf.outLen + 1 ≤ c.buf.maxLen
+
+/-- **C06, ligature, step theorem 2: one application of a lookup's ligature subtables at the current glyph** of any in/out
+    buffer state is the specification's `firstSubtable` on the projected string at position `out_len`: same decision
+    (first subtable that covers the glyph and has a matching ligature; first matching ligature of its set; a ligature with
+    zero extra components is a plain replacement), same new string — glyph ids, merged clusters, masks — and the
+    specification's resume index is the new `out_len`.  `ligate_input`'s ligature-id / component bookkeeping never
+    panics and is invisible in the projection. -/
+theorem C06_ligature_step_refines_spec (recurse : Ctx → Nat → M (Ctx × Bool)) (full : Bool) (c : Ctx)
+    (sts : List Subtable) (hall : sts.all Subtable.isLigatureSt = true) (hshort : LigsShort sts)
+    (x : Info) (R : List Info) (level : Nat) (hlv : level ≠ 2) (h : LigStepHyp c x R) :
+    match firstSubtable c.font level c.lookupProps c.lookupMask ((outP c.buf ++ inP c.buf).map toG) c.buf.outLen sts with
+    | none => applySubtables recurse full c sts = .ok (c, false)
+    | some (gs', nxt) =>
+      ∃ b', applySubtables recurse full c sts = .ok ({ c with buf := b' }, true) ∧ Inv b' ∧
+        b'.successful = c.buf.successful ∧ (outP b' ++ inP b').map toG = gs' ∧ b'.outLen = nxt := by
+  have hol := outP_length c.buf h.inv
+  have hctx : LigCtx c x R :=
+    ⟨h.inv, h.inp, fun y hy => (h.plain y hy).1, h.noskip, h.nosyl, h.level, h.noconcat, h.budget⟩
+  have happ := applySubtables_ligature C06_gen_buffer_variants.2 C06_gen_extend_start_guard recurse full c x R hctx sts hall hshort
+  have hxg : x.gid < 65536 := (h.plain x List.mem_cons_self).2
+  have hRg : ∀ y ∈ R, y.gid < 65536 := fun y hy => (h.plain y (List.mem_cons_of_mem _ hy)).2
+  rw [ligFor?_proj c.lookupMask x R hxg hRg sts] at happ
+  have hgs : ((outP c.buf ++ inP c.buf).map toG)[c.buf.outLen]? = some (projG x) := by
+    rw [h.inp, List.getElem?_map, List.getElem?_append_right (by omega), hol]; simp; rfl
+  have hdrop : ((outP c.buf ++ inP c.buf).map toG).drop (c.buf.outLen + 1) = R.map projG := by
+    rw [h.inp, List.map_append, List.map_cons]
+    exact drop_succ_append _ _ _ _ (by simp [hol])
+  rw [firstSubtable_ligature c.font level c.lookupProps c.lookupMask h.noskip _ c.buf.outLen (projG x) hgs sts hall, hdrop]
+  cases hsel : ligForG? c.lookupMask sts (projG x) (R.map projG) with
+  | none =>
+    rw [hsel] at happ
+    exact happ
+  | some p =>
+    rw [hsel] at happ
+    obtain ⟨b1, O1, x1, T1, y, hres, hinv1, hrel, hO1, hy, ho1, hi1, hcfg⟩ := happ
+    have hgs1 := mergeRel_spec _ _ c.buf.outLen p.1.length level hrel h.mono h.feat hlv
+    have hres2 := ligResult_eq level ((outP c.buf ++ inP c.buf).map projG) c.buf.outLen (projG x) p.1 p.2 O1 T1 x1 y
+      hgs1 hO1 hy
+    simp only [Option.map_some]
+    rw [toG_eq_projG, hres2]
+    refine ⟨b1, hres, hinv1, hcfg.1, by rw [ho1, hi1], ?_⟩
+    have := outP_length b1 hinv1
+    rw [ho1] at this
+    simp [hO1] at this
+    omega
+
+/-- the same for ONE ligature subtable, against `Spec.Subst.applySubtableAt` -/
+theorem C06_ligature_subtable_refines_spec (recurse : Ctx → Nat → M (Ctx × Bool)) (full : Bool) (c : Ctx)
+    (cov : Cov) (sets : List (List (List Nat × Nat)))
+    (hshort : ∀ ligs ∈ sets, ∀ p ∈ ligs, p.1.length + 1 ≤ MAX_CONTEXT_LENGTH)
+    (x : Info) (R : List Info) (level : Nat) (hlv : level ≠ 2) (h : LigStepHyp c x R) :
+    match applySubtableAt c.font level c.lookupProps c.lookupMask (.ligature cov sets)
+            ((outP c.buf ++ inP c.buf).map toG) c.buf.outLen with
+    | none => applySubtable recurse full c (.ligature cov sets) = .ok (c, false)
+    | some (gs', nxt) =>
+      ∃ b', applySubtable recurse full c (.ligature cov sets) = .ok ({ c with buf := b' }, true) ∧ Inv b' ∧
+        b'.successful = c.buf.successful ∧ (outP b' ++ inP b').map toG = gs' ∧ b'.outLen = nxt := by
+  have := C06_ligature_step_refines_spec recurse full c [.ligature cov sets] (by rfl)
+    (by
+      intro st hst cov' sets' he ligs hl p hp
+      simp only [List.mem_singleton] at hst
+      subst hst
+      cases he
+      exact hshort ligs hl p hp)
+    x R level hlv h
+  rw [firstSubtable_singleton, applySubtables_singleton] at this
+  exact this
+
+/-- **C06, ligature substitution**: for every font, every forward lookup made of ligature subtables whose flags exclude
+    nothing, every lookup mask, and every well-formed buffer of plain glyphs with monotone clusters and feature-bit masks at
+    cluster level 0 or 1, the streaming interpreter succeeds and yields exactly the glyph string — glyph ids, clusters,
+    masks — of the OpenType model, for every fuel (the two scans take their steps in lockstep). -/
+theorem C06_ligature_subst_refines_spec (l : Lookup) (hall : l.subtables.all Subtable.isLigatureSt = true)
+    (hshort : LigsShort l.subtables) (hp : NoSkipFlags l.props)
+    (c : Ctx) (fuel : Nat) (hps : c.perSyllable = false) (hlv : c.buf.level ≠ 2)
+    (hfl : c.buf.flags &&& Gen.Buf.produceUnsafeToConcat = 0)
+    (hsu : c.buf.successful = true) (hlen : c.buf.len ≤ c.buf.info.length) (hout : c.buf.out.length = c.buf.info.length)
+    (hbud : c.buf.len ≤ c.buf.maxLen)
+    (hplain : ∀ x ∈ c.buf.info.take c.buf.len, Plain x ∧ x.gid < 65536)
+    (hfeat : ∀ x ∈ c.buf.info.take c.buf.len, FeatMask x)
+    (hmono : NonDecr (c.buf.info.take c.buf.len) ∨ NonIncr (c.buf.info.take c.buf.len)) :
+    ∃ c', applyString c l fuel = .ok c' ∧ c'.buf.successful = true ∧ c'.buf.len ≤ c'.buf.info.length ∧
+      (c'.buf.info.take c'.buf.len).map toG
+        = applyLookupFwd c.font c.buf.level l c.lookupMask fuel ((c.buf.info.take c.buf.len).map toG) 0 := by
+  rw [toG_eq_projG]
+  exact applyString_lig l hall hshort hp C06_gen_buffer_variants.2 C06_gen_extend_start_guard c fuel hps hlv hfl hsu hlen hout
+    hbud hplain hfeat hmono
+
+/-- **C06, ligature substitution on buffers whose masks carry glyph flags (partial: the three glyph-flag bits of the masks are
+    left out).**  In a real shaping run the masks already hold `unsafe_to_break` / `unsafe_to_concat` flags from earlier
+    stages; `merge_clusters` (through `set_cluster`) drops the flags of every glyph whose cluster it changes, where the
+    specification leaves masks alone (example `exLigFlag` below), so `C06_ligature_subst_refines_spec` is false there for
+    the flag bits.  What holds without `FeatMask`: the pass succeeds and glyph ids, clusters and FEATURE bits of the masks
+    are exactly those of the specification.  `hlmf`: the lookup mask is made of feature bits (the feature map never
+    allocates the glyph-flag bits).  Missing for the full statement: a specification of the glyph flags. -/
+theorem C06_ligature_subst_flags_partial (l : Lookup) (hall : l.subtables.all Subtable.isLigatureSt = true)
+    (hshort : LigsShort l.subtables) (hp : NoSkipFlags l.props)
+    (c : Ctx) (fuel : Nat) (hlmf : c.lookupMask &&& (U32MAX - Flag.DEFINED) = c.lookupMask)
+    (hps : c.perSyllable = false) (hlv : c.buf.level ≠ 2)
+    (hfl : c.buf.flags &&& Gen.Buf.produceUnsafeToConcat = 0)
+    (hsu : c.buf.successful = true) (hlen : c.buf.len ≤ c.buf.info.length) (hout : c.buf.out.length = c.buf.info.length)
+    (hbud : c.buf.len ≤ c.buf.maxLen)
+    (hplain : ∀ x ∈ c.buf.info.take c.buf.len, Plain x ∧ x.gid < 65536)
+    (hmono : NonDecr (c.buf.info.take c.buf.len) ∨ NonIncr (c.buf.info.take c.buf.len)) :
+    ∃ c', applyString c l fuel = .ok c' ∧ c'.buf.successful = true ∧ c'.buf.len ≤ c'.buf.info.length ∧
+      (c'.buf.info.take c'.buf.len).map (fun x => (x.gid, x.cluster, featBits x.mask))
+        = (applyLookupFwd c.font c.buf.level l c.lookupMask fuel ((c.buf.info.take c.buf.len).map toG) 0).map
+            (fun g => (g.gid, g.cluster, featBits g.mask)) := by
+  rw [toG_eq_projG]
+  exact applyString_ligF l hall hshort hp C06_gen_buffer_variants.2 C06_gen_extend_start_guard c fuel hlmf hps hlv hfl hsu hlen
+    hout hbud hplain hmono
+
+/-! non-vacuity.  One ligature subtable: glyph 1 starts "1 2 3" → 20 (a 3-component ligature), "1 2" → 21 and "1" → 22 (zero
+    extra components: a plain replacement); glyph 5 starts "5 6" → 23.  The feature bit is 8 (the three low bits of a mask
+    are the glyph flags).  Text `1 2 3 | 1 2 4 | 1 7 | 5 6 | 5 7`: all three ligatures of the first set fire in turn, "5 6"
+    ligates, "5 7" is a FAILED match (5 stays).  Neighbouring glyphs share clusters (0 0 1 | 2 2 3 | …): the merge of
+    "1 2 3" takes cluster 0 for the ligature, and the merge of "5 6" (clusters 6, 7) extends over the next glyph, which
+    shares cluster 7 with the last component. -/
+def exLigFont : Font := {}
+def exLigSub : Subtable := .ligature [1, 5] [[([2, 3], 20), ([2], 21), ([], 22)], [([6], 23)]]
+def exLigLookup : Lookup := { props := 0, subtables := [exLigSub] }
+def exLigInfo : List Info :=
+  [⟨1,8,0,0,0⟩, ⟨2,8,0,0,0⟩, ⟨3,8,1,0,0⟩, ⟨1,8,2,0,0⟩, ⟨2,8,2,0,0⟩, ⟨4,8,3,0,0⟩, ⟨1,8,4,0,0⟩, ⟨7,8,5,0,0⟩,
+   ⟨5,8,6,0,0⟩, ⟨6,8,7,0,0⟩, ⟨5,8,7,0,0⟩, ⟨7,8,8,0,0⟩]
+def exLigCtx : Ctx :=
+  { font := exLigFont, lookupMask := 8, buf := { info := exLigInfo, out := List.replicate 12 {}, len := 12 } }
+
+example : exLigLookup.subtables.all Subtable.isLigatureSt = true := by decide
+example : NoSkipFlags exLigLookup.props := by decide
+example : LigsShort exLigLookup.subtables := by
+  intro st hst cov sets he ligs hl p hp
+  simp only [exLigLookup, exLigSub, List.mem_singleton] at hst
+  subst hst
+  cases he
+  simp only [List.mem_cons, List.not_mem_nil, or_false] at hl
+  rcases hl with h | h <;> subst h <;> simp only [List.mem_cons, List.not_mem_nil, or_false] at hp
+  · rcases hp with h | h | h <;> subst h <;> decide
+  · subst hp; decide
+example : exLigCtx.perSyllable = false ∧ exLigCtx.buf.level ≠ 2 ∧
+    exLigCtx.buf.flags &&& Gen.Buf.produceUnsafeToConcat = 0 ∧ exLigCtx.buf.len ≤ exLigCtx.buf.maxLen ∧
+    exLigCtx.buf.out.length = exLigCtx.buf.info.length := by decide
+example : ∀ x ∈ exLigCtx.buf.info.take exLigCtx.buf.len, Plain x ∧ x.gid < 65536 := by decide
+example : ∀ x ∈ exLigCtx.buf.info.take exLigCtx.buf.len, FeatMask x := by decide
+example : NonDecr (exLigCtx.buf.info.take exLigCtx.buf.len) := nonDecr_of_pairwise _ (by decide)
+/-- the interpreter: 12 glyphs become 8 -/
+example : (match applyString exLigCtx exLigLookup 12 with
+    | .ok c' => (c'.buf.info.take c'.buf.len).map (fun x => (x.gid, x.cluster, x.mask)) ==
+                  [(20, 0, 8), (21, 2, 8), (4, 3, 8), (22, 4, 8), (7, 5, 8), (23, 6, 8), (5, 6, 8), (7, 8, 8)]
+    | .error _ => false) = true := by decide
+/-- the specification: the same string -/
+example : (applyLookupFwd exLigFont 0 exLigLookup 8 12 (exLigInfo.map toG) 0).map (fun g => (g.gid, g.cluster, g.mask))
+    = [(20, 0, 8), (21, 2, 8), (4, 3, 8), (22, 4, 8), (7, 5, 8), (23, 6, 8), (5, 6, 8), (7, 8, 8)] := by decide
+
+/-! two ligatures sharing the first glyph: the ORDER in the set decides ("1 2" listed before "1 2 3" shadows it) -/
+def exLigLookup2 : Lookup := { props := 0, subtables := [.ligature [1] [[([2], 21), ([2, 3], 20)]]] }
+example : (match applyString exLigCtx exLigLookup2 12 with
+    | .ok c' => (c'.buf.info.take 3).map (fun x => (x.gid, x.cluster)) == [(21, 0), (3, 1), (21, 2)]
+    | .error _ => false) = true := by decide
+example : ((applyLookupFwd exLigFont 0 exLigLookup2 8 12 (exLigInfo.map toG) 0).take 3).map (fun g => (g.gid, g.cluster))
+    = [(21, 0), (3, 1), (21, 2)] := by decide
+
+/-! right-to-left text (clusters descending): the merged cluster is that of the LAST component, and the out-buffer glyph
+    that shares the first component's cluster is relabelled with it (`merge_clusters` continues into the out-buffer) -/
+def exLigRtl : Ctx :=
+  { font := exLigFont, lookupMask := 8,
+    buf := { info := [⟨9,8,2,0,0⟩, ⟨1,8,2,0,0⟩, ⟨2,8,1,0,0⟩, ⟨3,8,0,0,0⟩], out := List.replicate 4 {}, len := 4 } }
+example : NonIncr (exLigRtl.buf.info.take exLigRtl.buf.len) := nonIncr_of_pairwise _ (by decide)
+example : (match applyString exLigRtl exLigLookup 4 with
+    | .ok c' => (c'.buf.info.take c'.buf.len).map (fun x => (x.gid, x.cluster)) == [(9, 0), (20, 0)]
+    | .error _ => false) = true := by decide
+example : (applyLookupFwd exLigFont 0 exLigLookup 8 4 ((exLigRtl.buf.info.take 4).map toG) 0).map (fun g => (g.gid, g.cluster))
+    = [(9, 0), (20, 0)] := by decide
+
+/-! the step theorems on a mid-scan state: two glyphs out (separate out-buffer), "1 2 3 9" to come -/
+def exLigStepBuf : Buf :=
+  { info := [⟨0,0,0,0,0⟩, ⟨0,0,0,0,0⟩, ⟨1,8,2,0,0⟩, ⟨2,8,2,0,0⟩, ⟨3,8,3,0,0⟩, ⟨9,8,3,0,0⟩],
+    out := [⟨7,8,0,0,0⟩, ⟨8,8,1,0,0⟩, {}, {}, {}, {}],
+    idx := 2, len := 6, outLen := 2, haveOutput := true, sepOut := true }
+def exLigStepCtx : Ctx := { font := exLigFont, lookupMask := 8, buf := exLigStepBuf }
+example : LigStepHyp exLigStepCtx ⟨1,8,2,0,0⟩ [⟨2,8,2,0,0⟩, ⟨3,8,3,0,0⟩, ⟨9,8,3,0,0⟩] :=
+  ⟨⟨by decide, by decide, by decide, by decide, by decide, by decide⟩, by decide, by decide, by decide,
+    Or.inl (nonDecr_of_pairwise _ (by decide)), by decide, by decide, by decide, by decide, by decide⟩
+example : (match matchInput exLigStepCtx 2 (fun g i => g == [2, 3].getD i 0) [0, 0, 0, 0] with
+    | .ok r => (r.ok, r.endPos, r.positions.take 3) == (true, 5, [2, 3, 4])
+    | .error _ => false) = true := by decide
+/-- a failed match: "1 2 9" is not there (the third glyph is 3): `match_input` says no, and so does `matchSeq` -/
+example : (match matchInput exLigStepCtx 2 (fun g i => g == [2, 9].getD i 0) [0, 0, 0, 0] with
+    | .ok r => r.ok == false
+    | .error _ => false) = true := by decide
+example : matchSeq ((outP exLigStepBuf ++ inP exLigStepBuf).map toG)
+    (visibleFrom exLigFont 0 ((outP exLigStepBuf ++ inP exLigStepBuf).map toG) 3) ([2, 9].map fun v => fun g => g == v) (some 8)
+    = none := by decide
+example : matchSeq ((outP exLigStepBuf ++ inP exLigStepBuf).map toG)
+    (visibleFrom exLigFont 0 ((outP exLigStepBuf ++ inP exLigStepBuf).map toG) 3) ([2, 3].map fun v => fun g => g == v) (some 8)
+    = some [3, 4] := by decide
+example : (match applySubtable (recurseAt MAX_NESTING_LEVEL) true exLigStepCtx exLigSub with
+    | .ok (c', ok) => (ok, (outP c'.buf ++ inP c'.buf).map (fun x => (x.gid, x.cluster)), c'.buf.outLen)
+                        == (true, [(7, 0), (8, 1), (20, 2), (9, 2)], 3)
+    | .error _ => false) = true := by decide
+
+/-! the hypotheses are not idle.
+    (a) Clusters that are not monotone (5 0 5): `merge_clusters` merges the SPAN and the adjacent runs — glyph 9 keeps
+        cluster 5 — the specification relabels every glyph carrying a cluster value of the span.  (Replayed on the crate:
+        it does what the model does; HarfBuzz never produces such a cluster sequence at levels 0 / 1.)
+    (b) A glyph-flag bit (UNSAFE_TO_BREAK = 1) on a glyph whose cluster the merge changes: `set_cluster` drops it, the
+        specification keeps masks. -/
+def exLigLookup3 : Lookup := { props := 0, subtables := [.ligature [1] [[([2], 21)]]] }
+def exLigBad : Ctx :=
+  { font := exLigFont, lookupMask := 8,
+    buf := { info := [⟨9,8,5,0,0⟩, ⟨1,8,0,0,0⟩, ⟨2,8,5,0,0⟩], out := List.replicate 3 {}, len := 3 } }
+example : (match applyString exLigBad exLigLookup3 3 with
+    | .ok c' => (c'.buf.info.take c'.buf.len).map (fun x => (x.gid, x.cluster)) == [(9, 5), (21, 0)]
+    | .error _ => false) = true := by decide
+example : (applyLookupFwd exLigFont 0 exLigLookup3 8 3 ((exLigBad.buf.info.take 3).map toG) 0).map (fun g => (g.gid, g.cluster))
+    = [(9, 0), (21, 0)] := by decide
+def exLigFlag : Ctx :=
+  { font := exLigFont, lookupMask := 8,
+    buf := { info := [⟨1,9,1,0,0⟩, ⟨2,8,0,0,0⟩], out := List.replicate 2 {}, len := 2 } }
+example : (match applyString exLigFlag exLigLookup3 2 with
+    | .ok c' => (c'.buf.info.take c'.buf.len).map (fun x => (x.gid, x.cluster, x.mask)) == [(21, 0, 8)]
+    | .error _ => false) = true := by decide
+example : (applyLookupFwd exLigFont 0 exLigLookup3 8 2 ((exLigFlag.buf.info.take 2).map toG) 0).map (fun g => (g.gid, g.cluster, g.mask))
+    = [(21, 0, 9)] := by decide
+/-- … and `exLigFlag` satisfies the hypotheses of `C06_ligature_subst_flags_partial`: the feature bits (8) agree -/
+example : exLigFlag.lookupMask &&& (U32MAX - Flag.DEFINED) = exLigFlag.lookupMask ∧
+    (∀ x ∈ exLigFlag.buf.info.take exLigFlag.buf.len, Plain x ∧ x.gid < 65536) := by decide
+example : NonIncr (exLigFlag.buf.info.take exLigFlag.buf.len) := nonIncr_of_pairwise _ (by decide)
+example : (applyLookupFwd exLigFont 0 exLigLookup3 8 2 ((exLigFlag.buf.info.take 2).map toG) 0).map
+    (fun g => (g.gid, g.cluster, featBits g.mask)) = [(21, 0, 8)] := by decide
+
+/-- **C06, lookups mixing ligature subtables with one-for-one simple subtables (partial: multiple-substitution subtables are not
+    in the mix).**  The model's `Lookup` and the specification's `firstSubtable` allow subtables of different kinds in one
+    lookup (OpenType itself does not: a lookup has one type).  For a lookup whose subtables are single substitutions
+    (formats 1 / 2), alternate substitutions or ligature substitutions in any order, the first subtable that applies at a
+    glyph decides, exactly as in the OpenType model; hypotheses: the union of Part 3's (`c.random = false`, 32-bit lookup
+    mask, `AltSetsShort`) and `C06_ligature_subst_refines_spec`'s.  Missing: multiple substitution in the mix — the string
+    then grows and shrinks within one pass, and the length budget `max_len` has to be analysed over every prefix of the scan
+    (Part 4 bounds it by the final length, which is no longer an upper bound of the intermediate lengths). -/
+theorem C06_ligature_mixed_partial (l : Lookup) (hall : l.subtables.all Subtable.isInPlaceOrLig = true)
+    (hshort : LigsShort l.subtables) (halt : AltSetsShort l.subtables) (hp : NoSkipFlags l.props)
+    (c : Ctx) (fuel : Nat) (hrnd : c.random = false) (hlm : c.lookupMask < 2 ^ 32)
+    (hps : c.perSyllable = false) (hlv : c.buf.level ≠ 2)
+    (hfl : c.buf.flags &&& Gen.Buf.produceUnsafeToConcat = 0)
+    (hsu : c.buf.successful = true) (hlen : c.buf.len ≤ c.buf.info.length) (hout : c.buf.out.length = c.buf.info.length)
+    (hbud : c.buf.len ≤ c.buf.maxLen)
+    (hplain : ∀ x ∈ c.buf.info.take c.buf.len, Plain x ∧ x.gid < 65536)
+    (hfeat : ∀ x ∈ c.buf.info.take c.buf.len, FeatMask x)
+    (hmono : NonDecr (c.buf.info.take c.buf.len) ∨ NonIncr (c.buf.info.take c.buf.len)) :
+    ∃ c', applyString c l fuel = .ok c' ∧ c'.buf.successful = true ∧ c'.buf.len ≤ c'.buf.info.length ∧
+      (c'.buf.info.take c'.buf.len).map toG
+        = applyLookupFwd c.font c.buf.level l c.lookupMask fuel ((c.buf.info.take c.buf.len).map toG) 0 := by
+  rw [toG_eq_projG]
+  exact applyString_sim l (inPlaceOrLig_not_reverse l hall) hp C06_gen_buffer_variants.2 c
+    (mixed_subSim C06_gen_buffer_variants.2 C06_gen_extend_start_guard l hall hshort halt hp c.lookupMask c.buf.level hlv hlm)
+    fuel hrnd hps hlv hfl hsu hlen hout hbud hplain hfeat hmono
+
+/-! non-vacuity: ligature "1 2" → 21 first, then single substitution 1 → 11, 3 → 13, then alternate 2 → 30 (feature value 1) -/
+def exMixLigLookup : Lookup :=
+  { props := 0, subtables := [.ligature [1] [[([2], 21)]], .single1 [1, 3] 10, .alternate [2] [[30, 31]]] }
+def exMixLigCtx : Ctx :=
+  { font := exLigFont, lookupMask := 8,
+    buf := { info := [⟨1,8,0,0,0⟩, ⟨2,8,1,0,0⟩, ⟨1,8,2,0,0⟩, ⟨3,8,3,0,0⟩, ⟨2,8,4,0,0⟩], out := List.replicate 5 {}, len := 5 } }
+example : exMixLigLookup.subtables.all Subtable.isInPlaceOrLig = true := by decide
+example : (match applyString exMixLigCtx exMixLigLookup 5 with
+    | .ok c' => (c'.buf.info.take c'.buf.len).map (fun x => (x.gid, x.cluster)) == [(21, 0), (11, 2), (13, 3), (30, 4)]
+    | .error _ => false) = true := by decide
+example : (applyLookupFwd exLigFont 0 exMixLigLookup 8 5 ((exMixLigCtx.buf.info.take 5).map toG) 0).map (fun g => (g.gid, g.cluster))
+    = [(21, 0), (11, 2), (13, 3), (30, 4)] := by decide
 
 end RbModel.Gsub
